@@ -43,6 +43,31 @@ Theorem generators_are_layout_edits :
 Proof. exact (conj x_reindent_edit (conj x_respace_edit (conj x_trail_edit (conj x_backslash_edit x_filler_edit)))). Qed.
 Print Assumptions generators_are_layout_edits.
 
+(* The load verb.  For file systems of laid-out documents: if every file is laid out two ways
+   (both well formed, same commands per file; same files missing) and so is the root file, the
+   stream of commands offered to dispatch across all loaded files, and whether the build loop
+   runs to the end, are the same -- for every nesting depth bound (fuel). *)
+Theorem load_layout_invariant : forall (fsd1 fsd2 : str -> option ldoc) fuel d1 d2,
+  (forall n, match fsd1 n, fsd2 n with
+             | Some a, Some b => doc_ok a = true /\ doc_ok b = true /\ doc_cmds a = doc_cmds b
+             | None, None => True
+             | _, _ => False
+             end) ->
+  doc_ok d1 = true -> doc_ok d2 = true -> doc_cmds d1 = doc_cmds d2 ->
+  stream_of_files (render_fs fsd1) fuel (render d1) = stream_of_files (render_fs fsd2) fuel (render d2).
+Proof. exact load_layout_invariant_proof. Qed.
+Print Assumptions load_layout_invariant.
+
+(* The Builder keeps no layout state that dispatch can see: the attributes written by tokenize
+   and the build loop are exactly these four (extracted from the AST on this run; the translator
+   also fails unless every OTHER method reads the line counter only as a `count=` argument --
+   the declaration's line number kept for messages -- and never touches the file state).
+   currentHuman is ' '.join(tokens), a function of the command. *)
+Theorem loop_state_shape :
+  gen_loop_writes = map zs ["currentCount"; "currentFile"; "currentHuman"; "fileName"].
+Proof. exact eq_refl. Qed.
+Print Assumptions loop_state_shape.
+
 (* the scanner never depends on surrounding plain spaces, whatever the text *)
 Theorem chunks_ignore_outer_spaces : forall a b s,
   tokens_of (app (spaces a) (app s (spaces b))) = tokens_of s.
@@ -110,6 +135,19 @@ Proof. vm_compute. reflexivity. Qed.
 (* a tab between words is not a separator (only the space is) *)
 Example outside_tab_separator :
   commands [L ("put" ++ TAB ++ "true")] = [ [zs ("put" ++ TAB ++ "true")] ].
+Proof. vm_compute. reflexivity. Qed.
+
+(* ... so a trailing comment after a tab is not a comment: the tab and '#' join the token *)
+Example outside_tab_before_comment :
+  commands [L ("frame a" ++ TAB ++ "# note")] = [ [zs "frame"; zs ("a" ++ TAB ++ "#"); zs "note"] ].
+Proof. vm_compute. reflexivity. Qed.
+
+(* load: the loaded file's commands are spliced in after the load command *)
+Example ex_load_stream :
+  stream_of_files (fun n => if str_eqb n (zs "b.flo") then Some [L "frame b"; L "  go c \"; L "  if x"] else None) 3
+                  [L "frame a"; L "load b.flo"; L "  to q"; L "load missing.flo"; L "frame z"]
+  = ([ map zs ["frame"; "a"]; map zs ["load"; "b.flo"]; map zs ["frame"; "b"]; map zs ["go"; "c"; "if"; "x"];
+       map zs ["to"; "q"]; map zs ["load"; "missing.flo"] ], false).
 Proof. vm_compute. reflexivity. Qed.
 
 (* 'load' cannot be continued on a connective line *)
